@@ -262,13 +262,13 @@ for _p, _t in _EXTRA6.items():
 # Seventh round (DESIGN §8 round 7).
 _EXTRA7 = {
  "C01": " (R-TXN-12) the uncommitted views are partitioned over the ViewType enum: every updatable view type is taken by exactly one selector of the Updated map, so COMMIT either writes a changed table or stores its restore point (STDIN is in memory but not a temporary table).",
- "C02": " Seventh round: R-TXN-6 registered (a cancelled encode never reports success). (R-FMT-10) under ENCLOSE_ALL the quote flag of a cell is a function of the option and the kind of the value, never of its text (the reader tells \"\" from an unquoted empty field = NULL).",
- "C03": " Seventh round: (R-PAR-5) the parallel paths of WHERE / JOIN hand every row to exactly one worker; R-CMP-6 registered (the BETWEEN / IN expansions decide which rows WHERE keeps); R-CMP-10, R-KEY-7 registered.",
- "C04": " Seventh round: (R-PAR-5) the parallel key computation of GROUP BY hands every row to exactly one worker; (R-KEY-7) a byte buffer whose content becomes a map key is written only by the framed key serialisers (a memo keyed by raw texts joined with ':' hands one bucket key to two tuples); (R-CONV-4) lib/query reads a text as a number only through the lib/value conversions, apart from three listed built-ins — an aggregate with its own parser sums other rows than its bucket holds. (R-SRT-8) comparison keys of datetimes are exact.",
+ "C02": " Seventh round: R-TXN-6 registered (a cancelled encode never reports success). (R-FMT-10) under ENCLOSE_ALL the quote flag of a cell is a function of the option and the kind of the value, never of its text; (R-FMT-11) files are never coloured — genuine defect repaired (the reader tells \"\" from an unquoted empty field = NULL).",
+ "C03": " Seventh round: (R-PAR-5) the parallel paths of WHERE / JOIN hand every row to exactly one worker; R-CMP-6 registered (the BETWEEN / IN expansions decide which rows WHERE keeps); (R-REC-1) the recursion marker of a scope is written by its creator only, (R-ITER-1) a result assigned inside a per-row callback holds a value when it is read, (R-IDENT-2) names are compared case-insensitively everywhere — three genuine defects repaired (a UNION nested in a recursive CTE, LATERAL over an empty table, `T1.*`); R-CMP-10, R-KEY-7 registered.",
+ "C04": " Seventh round: (R-PAR-5) the parallel key computation of GROUP BY hands every row to exactly one worker; (R-DST-1) every success return of an aggregate evaluation honours DISTINCT — genuine defect repaired (COUNT(DISTINCT literal)); (R-KEY-7) a byte buffer whose content becomes a map key is written only by the framed key serialisers (a memo keyed by raw texts joined with ':' hands one bucket key to two tuples); (R-CONV-4) lib/query reads a text as a number only through the lib/value conversions, apart from three listed built-ins — an aggregate with its own parser sums other rows than its bucket holds. (R-SRT-8) comparison keys of datetimes are exact.",
  "C05": " Seventh round: (R-ORD-2) a map-ordered loop that publishes its values is keyed by the container key — genuine defect repaired: UPDATE / DELETE of one table under two aliases lost one alias's changes; (R-TXN-12); R-SCP-1 registered.",
  "C06": " Seventh round: (R-CMP-10) no three-to-two collapse: the argument of ternary.ConvertFromBool never compares a ternary value with a ternary constant (negation is ternary.Not); R-CONV-4 registered.",
  "C07": " Seventh round: (R-LIM-5) LIMIT and OFFSET have one interpreter: LimitClause.Value / OffsetClause.Value are read only by View.Limit / View.Offset and the three error constructors. (R-LIM-6, engine E12) the clamping arithmetic of LIMIT / OFFSET by symbolic path evaluation: kept = min(max(n,0), L), dropped = min(max(n,0), L), view.offset = dropped; (R-SRT-8) no ordering decision on time.Time.UnixNano (undefined outside 1678–2262) and (R-SRT-9) EquivalentTo is the tie relation of Less — three genuine defects repaired (datetime sort keys, MEDIAN of datetimes, WITH TIES for 1 / 1.0).",
- "C08": " Seventh round: R-LOCK-6 / R-OWN-1 registered (a failing CREATE TABLE releases the handler it created).",
+ "C08": " Seventh round: (R-CACHE-6) nothing fails after an eviction until the entry is re-published — genuine defect repaired (a failed lock upgrade dropped the loaded table); R-LOCK-6 / R-OWN-1 registered (a failing CREATE TABLE releases the handler it created).",
  "C09": " Seventh round: (R-LOCK-9) forUpdate is never invented: it comes from the user's FOR UPDATE or from being the target of a data-changing statement.",
  "C11": " Seventh round: (R-PATH-2) a path used by a clean-up after user statements ran (the removal of an empty --out file) is absolute, because CHDIR changes the working directory. (R-MTX-2) registered: a self-deadlocked run can only be killed, which leaves the lock files.",
  "C12": " Seventh round: (R-PAR-5, engine E11) the task ranges tile the input: RecordRange read path by path as polynomials over (task index, recordLen, Number, recordLen/Number) gives start(0) = 0, end(i) = start(i+1), end(last) = recordLen, empty ranges only beyond the last row; every consumer walks exactly [start, end); every task function is started for each index 0 … Number−1 — the rows the workers handle are a partition of the input for every --cpu. (R-CACHE-5) a cache hit compares the requested import options (known finding, two keys: the first loader wins and the order of first loads depends on the schedule); (R-PAR-17) a transaction file handle is used inside the critical section that took it; (R-ORD-2).",
@@ -276,10 +276,10 @@ _EXTRA7 = {
  "C14": " Seventh round: R-ALIAS-1 extended (rows of a scratch view are never carved out of one block; derived caches do not share backing arrays); R-POOL-3 identifies pool constructors by role.",
  "C15": " Seventh round: (R-SCP-11) a variable is born with its initial value — no name of a declaration exists (as NULL) while its own initial value is evaluated.",
  "C16": " Seventh round: (R-CUR-10) the range / open status of a cursor is consulted only by the CURSOR … IS … expressions — loops and fetches are driven by what Fetch returns; (R-CMP-10) IS NOT IN RANGE / IS NOT OPEN negate with ternary.Not. (R-CUR-9) FETCH RELATIVE computes index + number only on paths whose branch conditions bound the sum on both sides (it cannot wrap around) — genuine defect repaired (be64c59); R-CUR-4 accepts a saturated move only where the branch condition proves that index + number lies on or beyond the boundary that is stored instead. (R-INTO-1) every variable of an INTO list is assigned on every successful return — genuine defect repaired: an out-of-range FETCH left the previous row in the variables; (R-LKS-1).",
- "C17": " Seventh round: (R-PAR-5) every partition is handed to exactly one worker of Analyze; R-PAR-3 registered (partitions are built in row order); R-KEY-7 / R-CONV-4 registered. R-SRT-8 / R-SRT-9 registered.",
+ "C17": " Seventh round: (R-ERR-23 / R-ERR-24) window-frame arithmetic on user offsets cannot wrap or walk unboundedly — genuine defect repaired; (R-ANA-6) no frames over a reordered partition (known finding: LAST_VALUE); (R-PAR-5) every partition is handed to exactly one worker of Analyze; R-PAR-3 registered (partitions are built in row order); R-KEY-7 / R-CONV-4 registered. R-SRT-8 / R-SRT-9 registered.",
  "C18": " Seventh round: (R-ESC-8) a printer never inspects the text of a child, Parentheses / Subquery always wrap; (R-ESC-9) every field of a node is consulted on every path of its printer; (R-SCAN-3 / R-SCAN-4) the parser driver is handed EOF or a positive number, and no character stands for a named token — two genuine defects repaired (unknown operators and NUL silently dropped; private-use runes taken for grammar tokens).",
- "C19": " Seventh round: (R-MTX-2) no call made while a transaction-wide mutex is held reaches a second Lock of it — known finding, eight keys: a data-changing statement whose expressions call a user-defined function that runs a data-changing statement waits for itself for ever.",
- "C20": " Seventh round: (R-LOCK-9) no function sets FOR UPDATE on a query it evaluates; R-PAR-17 registered.",
+ "C19": " Seventh round: (R-MTX-2) no call made while a transaction-wide mutex is held reaches a second Lock of it — known finding, eight keys: a data-changing statement whose expressions call a user-defined function that runs a data-changing statement waits for itself for ever; (R-NEST-1) stored code on a call-graph cycle needs a depth guard (three keys known: unbounded recursion of functions and prepared statements; the placeholder self-reference repaired); (R-BKT-1) no branching self-recursion over the same input (LIKE repaired); (R-ERR-23/24/25) user-controlled sums, loop bounds and running-position fills; R-ERR-7 covers formatting precisions (NUMBER_FORMAT repaired); R-DROP-1 (c) encode errors are never blanked (JSON_OBJECT repaired).",
+ "C20": " Seventh round: (R-CACHE-6) evict last; (R-LOCK-9) no function sets FOR UPDATE on a query it evaluates; R-PAR-17 registered.",
 }
 for _p, _t in _EXTRA7.items():
     if _p in CLAIMS:
